@@ -405,7 +405,8 @@ class Search:
             self.hist["callbacks_set_at_save"] = self.hist.get("callbacks_set_at_save", 0) + 1
         if has_cb != any("function pointers" in w for w in warns):
             only = cfg.get("cb", [])
-            c.violation("C05-N12:pre_timestep_modifications-not-flagged" if (only == ["pre"] and not cfg.get("collision")) else "callback-warning:" + path,
+            c.violation("C05-N12:pre_timestep_modifications-not-flagged" if (only == ["pre"] and not cfg.get("collision")) else
+                        "C05-N16:mercurius-L-not-flagged" if (only == ["mercurius_L"] and not cfg.get("collision")) else "callback-warning:" + path,
                         "callbacks %s at save time but the 'reset function pointers' warning is %s on load (%s), cfg %s" % (
                             "set" if has_cb else "not set", "missing" if has_cb else "raised", path, key), {"cfg": cfg, "path": path, "warnings": warns})
         if bad_warn:
@@ -735,7 +736,7 @@ def correspondence(c, exe, rb, info, R, cfgs):
                 c.corr_break("model decode+encode of a real stream is not the identity: " + str(R.first_difference(rf, mf)), {"cfg": cfg})
             # the writer's list (output.c:594-604) does not contain pre_timestep_modifications (finding C05-N12)
             cbm = {"additional_forces": "additional_forces", "additional_forces_vel": "additional_forces", "heartbeat": "heartbeat",
-                   "pre": "pre_timestep_modifications", "post": "post_timestep_modifications"}
+                   "pre": "pre_timestep_modifications", "post": "post_timestep_modifications", "mercurius_L": "ri_mercurius.L"}
             fpset = (bool(cfg.get("collision")) and "collision_resolve" in info["fp_members"]) or \
                 any(cbm[cb] in info["fp_members"] for cb in cfg.get("cb", []))
             if warns != ("pointers" if fpset else "none"):
@@ -1291,12 +1292,200 @@ def dimension_cases(c, S, info, R, rb):
     return dims
 
 
+EP_C_RE = r"save_to_file|save_to_stream|create_from_file|create_from_simulationarchive|simulation_copy|simulation_diff|binary_diff|simulationarchive|output_free_stream|binary_field_descriptor_for|input_process_warnings"
+
+
+def extract_entry_points():
+    """public entry points of the persistence mechanism: DLLEXPORT functions of rebound.h whose name says so, the methods
+    of rebound.Simulation whose body reaches them (or is a from_* constructor), the public methods of Simulationarchive"""
+    import re as _re
+    h = open(os.path.join(REPO, "src", "rebound.h")).read()
+    cfun = sorted({m for m in _re.findall(r"DLLEXPORT[^;{]*?\b(reb_\w+)\s*\(", h) if _re.search(EP_C_RE, m)})
+    spy = open(os.path.join(REPO, "rebound", "simulation.py")).read()
+    cls = spy[spy.index("class Simulation(Structure):"):]
+    py = set()
+    for chunk in _re.split(r"\n    def ", cls)[1:]:
+        name = chunk.split("(")[0]
+        body = _re.split(r"\n    @|\nclass ", chunk)[0]
+        if _re.search(r"clibrebound\.reb_simulation_(save_to|copy|diff|create_from)|clibrebound\.reb_simulationarchive", body) or name.startswith("from_") or name == "simulationarchive_filename":
+            py.add("Simulation." + name)
+    sap = open(os.path.join(REPO, "rebound", "simulationarchive.py")).read()
+    for name in _re.findall(r"\n    def (\w+)\(", sap[sap.index("class Simulationarchive"):]):
+        if name in ("__repr__", "__setitem__", "__delitem__", "_getSnapshotIndex"):
+            continue
+        py.add("Simulationarchive." + name)
+    return cfun, sorted(py)
+
+
+class Descriptor(ctypes.Structure):
+    _fields_ = [("type", ctypes.c_uint32), ("dtype", ctypes.c_int), ("name", ctypes.c_char * 1024), ("offset", ctypes.c_size_t),
+                ("offset_N", ctypes.c_size_t), ("element_size", ctypes.c_size_t)]
+
+
+def entry_points(c, S, info, R, rb):
+    """every public entry point is exercised in this run, with the round-trip oracle where it applies"""
+    cfun, pym = extract_entry_points()
+    c.cov["entry_points_extracted"] = {"c": len(cfun), "python": len(pym)}
+    if len(cfun) < 18 or len(pym) < 14:
+        c.corr_break("entry-point extraction found too little: %d C functions, %d Python methods" % (len(cfun), len(pym)))
+
+    def task(_):
+        import warnings, io, contextlib
+        warnings.simplefilter("ignore")
+        lib = rb.clibrebound
+        done, viol = set(), []
+        cfg = {"integrator": "whfast", "o": {"safe_mode": 0}, "system": "planets", "save_after": 3, "variational": 1}
+
+        def mk():
+            a = build_sim(rb, cfg); advance(a, 3); R.save(a)
+            return a
+
+        def same(a, b, what):
+            d_ = R.first_difference(S.semantic(R.persisted_view(a, drop_wall=False)), S.semantic(R.persisted_view(b, drop_wall=False)))
+            if d_:
+                viol.append(("entry-point:" + what, "%s does not reproduce the simulation: %s" % (what, d_), {"entry": what}))
+        fn = os.path.join(S.tmp, "ep.bin")
+
+        def fresh():
+            if os.path.exists(fn):
+                os.remove(fn)
+        # ---- C functions through ctypes
+        a = mk()
+        R.save(a); done |= {"reb_simulation_save_to_stream", "reb_simulation_output_free_stream"}
+        fresh(); lib.reb_simulation_save_to_file(ctypes.byref(a), fn.encode()); done.add("reb_simulation_save_to_file")
+        lib.reb_simulation_create_from_file.restype = ctypes.c_void_p
+        p1 = lib.reb_simulation_create_from_file(fn.encode(), ctypes.c_int64(-1)); done.add("reb_simulation_create_from_file")
+        same(a, rb.Simulation.from_address(p1), "reb_simulation_create_from_file")
+        lib.reb_simulationarchive_create_from_file.restype = ctypes.c_void_p
+        sap = lib.reb_simulationarchive_create_from_file(fn.encode()); done.add("reb_simulationarchive_create_from_file")
+        lib.reb_simulation_create_from_simulationarchive.restype = ctypes.c_void_p
+        p2 = lib.reb_simulation_create_from_simulationarchive(ctypes.c_void_p(sap), ctypes.c_int64(0)); done.add("reb_simulation_create_from_simulationarchive")
+        same(a, rb.Simulation.from_address(p2), "reb_simulation_create_from_simulationarchive")
+        lib.reb_simulationarchive_free(ctypes.c_void_p(sap)); done.add("reb_simulationarchive_free")
+        lib.reb_simulation_copy.restype = ctypes.c_void_p
+        p3 = lib.reb_simulation_copy(ctypes.byref(a)); done.add("reb_simulation_copy")
+        same(a, rb.Simulation.from_address(p3), "reb_simulation_copy")
+        if R.diff(a, rb.Simulation.from_address(p3)) != 0:
+            viol.append(("entry-point:reb_simulation_diff", "reb_simulation_diff reports a difference between a simulation and its reb_simulation_copy", {}))
+        done.add("reb_simulation_diff")
+        lib.reb_simulation_diff_char.restype = ctypes.c_void_p
+        pc = lib.reb_simulation_diff_char(ctypes.byref(a), ctypes.c_void_p(p3)); txt = ctypes.string_at(pc).decode(); lib.reb_free(ctypes.c_void_p(pc))
+        done.add("reb_simulation_diff_char")
+        if [l for l in txt.splitlines() if l.endswith(":") and not l.startswith(info["wallprefix"])]:
+            viol.append(("entry-point:reb_simulation_diff_char", "reb_simulation_diff_char lists differences between a simulation and its copy: %s" % txt[:100], {}))
+        for ptr in (p1, p2, p3):
+            lib.reb_simulation_free(ctypes.c_void_p(ptr))
+        # descriptor look-ups against the generated table
+        lib.reb_binary_field_descriptor_for_type.restype = Descriptor
+        lib.reb_binary_field_descriptor_for_name.restype = Descriptor
+        for r_ in info["rows"]:
+            d1 = lib.reb_binary_field_descriptor_for_type(ctypes.c_int(r_["id"]))
+            d2 = lib.reb_binary_field_descriptor_for_name(r_["name"].encode())
+            for d_ in (d1, d2):
+                if (d_.type, d_.name.decode(), d_.offset, d_.element_size) != (r_["id"], r_["name"], r_["off"], r_["esz"]):
+                    viol.append(("entry-point:descriptor-lookup", "descriptor look-up of %s returns %s/%s" % (r_["name"], d_.type, d_.name.decode()), {"row": r_["name"]}))
+                    break
+        done |= {"reb_binary_field_descriptor_for_type", "reb_binary_field_descriptor_for_name"}
+        # automatic cadences (interval, step, walltime)
+        for which, arg in (("interval", ctypes.c_double(0.03)), ("step", ctypes.c_uint64(2)), ("walltime", ctypes.c_double(1e-9))):
+            a2 = build_sim(rb, dict(cfg, variational=None)); fresh()
+            getattr(lib, "reb_simulation_save_to_file_" + which)(ctypes.byref(a2), fn.encode(), arg)
+            a2.integrate(a2.t + 12.3 * a2.dt, exact_finish_time=0)
+            done.add("reb_simulation_save_to_file_" + which)
+            sa = rb.Simulationarchive(fn)
+            if len(sa) < 2:
+                viol.append(("entry-point:save_to_file_" + which, "automatic snapshots (%s) were not written: %d" % (which, len(sa)), {}))
+                continue
+            if len(sa) < 3:
+                viol.append(("entry-point:save_to_file_" + which, "fewer than 3 automatic snapshots (%s): %d" % (which, len(sa)), {}))
+                continue
+            r_ = sa[len(sa) - 2]      # not the final one: integrate() synchronises the original before its last heartbeat
+            u = build_sim(rb, dict(cfg, variational=None)); u.steps(int(r_.steps_done))
+            u.steps(3); r_.steps(3); u.synchronize(); r_.synchronize()
+            pu = [(t, p_) for t, p_ in R.persisted_view(u) if R.names.get(t) in PHYS]
+            pr = [(t, p_) for t, p_ in R.persisted_view(r_) if R.names.get(t) in PHYS]
+            d_ = R.first_difference(pu, pr)
+            if d_:
+                viol.append(("entry-point:save_to_file_" + which, "last automatic snapshot (%s), continued, differs from the uninterrupted run: %s" % (which, d_), {}))
+        # ---- Python spellings
+        a = mk(); fresh()
+        a.save_to_file(fn); done.add("Simulation.save_to_file")
+        same(a, rb.Simulation(fn), "Simulation(filename)"); same(a, rb.Simulation(fn, snapshot=0), "Simulation(filename, snapshot=)")
+        with open(fn, "rb") as fh:
+            same(a, rb.Simulation(fh.read()), "Simulation(bytes)")
+        done |= {"Simulation.__new__", "reb_simulation_create_from_simulationarchive_with_messages", "reb_simulationarchive_create_from_file_with_messages",
+                 "reb_simulationarchive_init_from_buffer_with_messages"}
+        for spelling, mkr in (("Simulation.from_file(fn)", lambda: rb.Simulation.from_file(fn)), ("Simulation(filename=fn)", lambda: rb.Simulation(filename=fn))):
+            r_ = mkr()
+            d_ = R.first_difference(S.semantic(R.persisted_view(a, drop_wall=False)), S.semantic(R.persisted_view(r_, drop_wall=False)))
+            if d_:
+                viol.append(("C05-N15:filename-keyword-ignored", "%s does not load the file: it returns a simulation with N=%d, t=%s (%s)" % (spelling, r_.N, r_.t, d_), {"entry": spelling}))
+        done.add("Simulation.from_file")
+        sa = rb.Simulationarchive(fn); done |= {"Simulationarchive.__init__", "reb_simulationarchive_free_pointers"}
+        try:
+            same(a, rb.Simulation.from_simulationarchive(sa), "Simulation.from_simulationarchive")
+        except Exception as e:
+            viol.append(("C05-N15:filename-keyword-ignored", "rebound.Simulation.from_simulationarchive(sa) raises %s: %s" % (type(e).__name__, str(e)[:80]), {"entry": "Simulation.from_simulationarchive"}))
+        done.add("Simulation.from_simulationarchive")
+        same(a, sa[0], "Simulationarchive[0]"); done.add("Simulationarchive.__getitem__")
+        if len(sa) != 1 or len(list(sa)) != 1 or "nblobs" not in str(sa):
+            viol.append(("entry-point:Simulationarchive-len-iter", "len / iteration / str of a one-snapshot archive: %s %s" % (len(sa), str(sa)[:60]), {}))
+        done |= {"Simulationarchive.__len__", "Simulationarchive.__iter__", "Simulationarchive.__str__"}
+        g = sa.getSimulation(a.t, mode="snapshot", keep_unsynchronized=1); done.add("Simulationarchive.getSimulation")
+        gs = list(sa.getSimulations([a.t])); done.add("Simulationarchive.getSimulations")
+        if g.steps_done != a.steps_done or gs[0].steps_done != a.steps_done:
+            viol.append(("entry-point:getSimulation", "getSimulation(s) returns another snapshot", {}))
+        try:
+            sa.getBezierPaths()
+        except Exception:
+            pass
+        done.add("Simulationarchive.getBezierPaths")
+        del sa; done.add("Simulationarchive.__del__")
+        cp = a.copy(); same(a, cp, "Simulation.copy"); done |= {"Simulation.copy", "reb_simulation_copy_with_messages"}
+        same(a, pickle.loads(pickle.dumps(a)), "pickle"); done.add("Simulation.__reduce__")
+        if not (a == cp) or (a != cp):
+            viol.append(("entry-point:Simulation.__eq__", "a simulation and its copy are not == ", {}))
+        done.add("Simulation.__eq__")
+        buf = io.StringIO()
+        with contextlib.redirect_stdout(buf):
+            a.diff(cp)
+        done.add("Simulation.diff")
+        buf = io.StringIO()
+        with contextlib.redirect_stdout(buf):
+            a.status(showParticles=False)          # prints reb_simulation_diff_char against a fresh simulation
+        done.add("Simulation.status")
+        if "integrator" not in buf.getvalue() or "\ndt" not in buf.getvalue().replace("\x1b[31m", ""):
+            if "dt:" not in buf.getvalue():
+                viol.append(("entry-point:Simulation.status", "status() does not list the non-default fields (integrator, dt): %s" % buf.getvalue()[-200:], {}))
+        fn2 = os.path.join(S.tmp, "ep2.bin")
+        a3 = build_sim(rb, dict(cfg, variational=None))
+        a3.save_to_file(fn2, interval=0.05, delete_file=True)
+        got_fn = a3.simulationarchive_filename
+        if (got_fn.decode() if isinstance(got_fn, bytes) else got_fn) != fn2:
+            viol.append(("entry-point:simulationarchive_filename", "simulationarchive_filename is %r" % a3.simulationarchive_filename, {}))
+        done.add("Simulation.simulationarchive_filename")
+        return {"done": sorted(done), "viol": viol}
+
+    ok, out = forked(task, None)
+    if not ok:
+        c.violation("entry-point-crash", "exercising the public entry points of save / restore / copy / compare crashed", {})
+        return
+    for key, what, rep in out["viol"]:
+        c.violation(key, what, rep)
+    missing = [e for e in cfun + pym if e not in set(out["done"])]
+    c.cov["entry_points_exercised"] = len([e for e in cfun + pym if e in set(out["done"])])
+    c.cov["entry_points_not_exercised"] = missing
+    c.count(("entry-points",), n=len(out["done"]))
+    if missing:
+        c.corr_break("public entry points of the persistence mechanism not exercised in this run: " + ", ".join(missing))
+
+
 def pairwise_array(c, factors, tag):
     """covering array for this seed (cached in corpus/: generation is deterministic but takes ~15 s)"""
     import hashlib, inspect
     import persist_common as _pc
     sig = hashlib.sha1((json.dumps(factors, sort_keys=False, default=str) + inspect.getsource(_pc.pair_excluded) +
-                        "".join(r[0] + r[1] + r[3] + inspect.getsource(r[2]) for r in PAIR_RULES)).encode()).hexdigest()[:12]
+                        "".join(r[0] + r[1] + r[3] + inspect.getsource(r[2]) for r in PAIR_RULES) + "".join(r[1] for r in TRIPLE_RULES)).encode()).hexdigest()[:12]
     fn = os.path.join(ROOT, "corpus", "C05", "pairs_%s_%s_seed%d.json" % (tag, sig, c.seed))
     if os.path.exists(fn):
         j = json.load(open(fn))
@@ -1347,7 +1536,7 @@ def finish_pairs(c, S, arr, tot, exc, run_more, factors=None, to_case=None):
                         continue
                     vals = list(factors[f]); rng.shuffle(vals)
                     for v in vals:
-                        if all(not pair_excluded(f, v, g, cand[g]) for g in cand):
+                        if all(not pair_excluded(f, v, g, cand[g]) for g in cand) and not triple_excluded(dict(cand, **{f: v})):
                             cand[f] = v
                             break
                     else:
@@ -1377,7 +1566,7 @@ def finish_pairs(c, S, arr, tot, exc, run_more, factors=None, to_case=None):
                       "assignments_generated": len(arr), "assignments_completed": len(done), "repair_rounds": rounds,
                       "missing": [list(p) for p in missing[:25]],
                       "assignments_rejected_by_the_code": rejected[:40],
-                      "excluded_reasons": sorted({v for v in exc.values()})}
+                      "excluded_reasons": sorted({v for v in exc.values()}), "three_factor_constraints": [r[1] for r in TRIPLE_RULES]}
     if c.thorough and missing:
         c.corr_break("pairwise coverage incomplete: %d of %d applicable factor pairs never ran to the end, e.g. %s" % (len(missing), len(tot), missing[:3]))
 
@@ -1681,6 +1870,7 @@ def run(c):
     archive_field_sweep(c, S, info, R, rb)
     c.log("sweeps done")
     targeted(c, S, rb, c.rng, c.thorough)
+    entry_points(c, S, info, R, rb)
     extra = dimension_cases(c, S, info, R, rb)
     finish_dimensions(c, S, extra, DIMS_COMMON + ["kind:one", "kind:twin", "kind:archive", "kind:syncsave", "histories:structural_ops",
                       "histories:integrator_switch", "histories:add_remove", "histories:explicit_synchronize", "scale:counters_ge_2^32"] + list(extra))
